@@ -75,4 +75,6 @@ def unreal2_part(tier, seed, w, v, lay, tp, mc):
     mc.append(behaviours("MC_Unreal2.tla", cfg_for(tier, "Gen_Unreal2.cfg"), b, PID.lower() + "_genu"))
     r = vhr(["unreal2-behaviours", "--layouts", lay, "--in", b, "--only", PID], 4 if quick else 40, seed, tier, name=PID.lower() + "u")
     v.add_report(r, "unreal2 behaviours")
-    return [r]
+    rt, _, ts = unreal2_trace(PID, tier, seed, w, v, lay)
+    mc.append(ts)
+    return [r, rt]
